@@ -124,11 +124,20 @@ func c18Run(f func(dst *bytes.Buffer, src []byte) error, src []byte, prefilled b
 	in := append([]byte(nil), src...)
 	// what earlier calls with other options leave in the pooled working contexts must not show in these functions
 	// (HTMLEscape and the re-formatting of marshaler output run on the encoder's contexts)
-	_, _ = json.MarshalWithOption(c18PrologueVal, json.Colorize(json.DefaultColorScheme), json.UnorderedMap(), json.DisableHTMLEscape())
-	_, _ = json.MarshalIndent(c18PrologueVal, ">", "\t")
+	// (alternately a coloured and an indenting call is the last user of the pooled context)
+	c18PrologueTurn++
+	if c18PrologueTurn%2 == 0 {
+		_, _ = json.MarshalIndent(c18PrologueVal, ">", "\t")
+		_, _ = json.MarshalWithOption(c18PrologueVal, json.Colorize(json.DefaultColorScheme), json.UnorderedMap(), json.DisableHTMLEscape())
+	} else {
+		_, _ = json.MarshalWithOption(c18PrologueVal, json.Colorize(json.DefaultColorScheme), json.UnorderedMap(), json.DisableHTMLEscape())
+		_, _ = json.MarshalIndent(c18PrologueVal, ">", "\t")
+	}
 	panicked, msg = util.Safe(func() { err = f(&dst, in) })
 	return append([]byte(nil), dst.Bytes()...), err, panicked, msg
 }
+
+var c18PrologueTurn int
 
 var c18PrologueVal = map[string]interface{}{"a": []int{1}, "b": "<x>"}
 
